@@ -13,6 +13,9 @@ BUILT = {
  "C05": ("metamorphic / differential property-based testing: same input through two chunkings, variants or set_chunk_size schedules, explicit position-rounding tolerance model",
          "Generated parameter sets and input streams run through two resamplers that differ in chunk size (1..4096), FixedIn/FixedOut(/InOut) variant or a mid-stream set_chunk_size schedule; the common prefix of the concatenated outputs is compared frame by frame (FFT variants bit-exactly; asynchronous ones within 8*(i+1)*ulp(idx_max)*slope, far below the 1e-3 effect of a lost, repeated or stale frame). Exploration level.",
          "constant ratio; nearest-neighbour ties get one grid step"),
+ "C06": ("stateful property-based testing with an index-signal observable (output value = evaluation instant) and a linear probing interpolator; invariants over consecutive instants",
+         "Generated histories of processing calls, stepped/ramped in-range ratio changes and chunk changes on the four asynchronous types, fed x[n]=n: each output IS its evaluation instant (polynomial exactness, resp. a probing SincInterpolator returning window start + subindex/oversampling and poisoning windows that are not consecutive supplied frames). Spacings are checked against a replica of the documented setter semantics. Exploration level.",
+         "f64, nearest modes excluded; fixed-input ratio changes inside the benign envelope, their ramps with the bounded D9 allowance"),
  "C07": ("property-based testing with running-total invariants (u128 integer relations for the FFT types)",
          "Generated configurations (random ratios, coprime rate pairs, block sizes, tiny chunks, set_chunk_size schedules) driven for hundreds to 10^6 calls; after every call the totals of the returned (in,out) tuples are checked against the stated constant bound, resp. the exact integer relations for the synchronous types and the minimality of the FftFixedInOut block. Exploration level.",
          "constant ratio for the whole stream"),
